@@ -608,6 +608,13 @@ func e6CatchUpCase(seed uint64, n int) Case {
 	}}
 }
 
+func lastEvents(nd *node) string {
+	if nd.mir == nil {
+		return "(a clone: no event stream of its own)"
+	}
+	return tailEvents(nd.mir.events(), 6)
+}
+
 // checkExactP: got must equal sent (same events, same order).
 func checkExactP(r *Res, prop, name string, got, sent []evrec) {
 	if len(got) != len(sent) {
@@ -660,7 +667,7 @@ func e6MidFilteredCase(seed uint64, n int, race bool) Case {
 					continue
 				}
 				if !got.Equal(want) {
-					r.V("C05", "events-missing", "%s (accept-all filter) was created while events were being published; at quiescence its view is %v, the publisher's is %v: an event published after it was created is neither in its initial copy nor was it delivered; its last events: %s", nd, got, want, tailEvents(nd.mir.events(), 6))
+					r.V("C05", "events-missing", "%s (accept-all filter) was created while events were being published; at quiescence its view is %v, the publisher's is %v: an event published after it was created is neither in its initial copy nor was it delivered; its last events: %s", nd, got, want, lastEvents(nd))
 					return false
 				}
 			}
@@ -700,7 +707,7 @@ func e6MidFilteredCase(seed uint64, n int, race bool) Case {
 			// ... and some of the existing ones are given a NEW accept-all filter (a function
 			// filter never compares equal) while the events are going out: the subscriber
 			// re-reads its parent, and must still end up with everything
-			for k := 0; k < 3 && len(subs) > 0; k++ {
+			for k := 0; k < 10 && len(subs) > 0; k++ {
 				nd := subs[rng.Intn(len(subs))]
 				if nd.refilt != nil && !isClosed(nd.done) {
 					if err := nd.refilt(kit.TFN("accept-all", func(metav1Object) bool { return true })); err != nil {
